@@ -453,3 +453,31 @@ def random_family(seed, count, **kw):
     for i in range(count):
         out.append(g.grammar(nvariants=1 if g.r.random() < 0.7 else 2))
     return out
+
+
+def loop_heavy_family(seed, count, lits=('foo', 'bar', '--baz', '--quux'), refs=('FILE', 'DIRX'), max_depth=5):
+    """Seeded random expressions made of sequence, |, [], ... over few literals and placeholders, no
+    within-word items: automata with many loops and many accepting states (the shapes on which a
+    partition-refinement bug shows)."""
+    r = random.Random(seed)
+
+    def expr(d):
+        x = r.random()
+        if d <= 0 or x < 0.22:
+            if r.random() < 0.2:
+                return Ref(r.choice(refs))
+            return Lit(r.choice(lits))
+        if x < 0.45:
+            return Seq(*[expr(d - 1) for _ in range(r.randint(2, 3))])
+        if x < 0.70:
+            return Alt(*[expr(d - 1) for _ in range(r.randint(2, 3))])
+        if x < 0.85:
+            return Opt(expr(d - 1))
+        return Many(expr(d - 1))
+    out = []
+    for _ in range(count):
+        e = expr(r.randint(3, max_depth))
+        if r.random() < 0.5:
+            e = Many(e)
+        out.append(mk('cmd', e))
+    return out
